@@ -63,6 +63,7 @@ func main() {
 	maxDump := flag.Int("max-dump", 40, "maximum number of dumped queries")
 	trace := flag.Bool("trace", false, "trace instructions")
 	concrete := flag.String("concrete", "", "JSON list of assignments: run each concretely in the engine and report outs/fails")
+	asMain := flag.Bool("as-main", false, "the harness package is 'package main': overlay its files into the repository root")
 	pkgOverlay := flag.String("pkg-overlay", "", "extra overlays: comma-separated repoRelPath=absFile")
 	flag.Parse()
 
@@ -94,10 +95,27 @@ func main() {
 	if err := addDir("vsym"); err != nil {
 		fail(err)
 	}
-	if err := addDir(*pkg); err != nil {
+	patterns := []string{"./zzverif/" + *pkg}
+	if *asMain {
+		ents, err := os.ReadDir(filepath.Join(*hdir, *pkg))
+		if err != nil {
+			fail(err)
+		}
+		for _, e := range ents {
+			n := e.Name()
+			if !strings.HasSuffix(n, ".go") || strings.HasSuffix(n, "_test.go") {
+				continue
+			}
+			b, err := os.ReadFile(filepath.Join(*hdir, *pkg, n))
+			if err != nil {
+				fail(err)
+			}
+			overlay[filepath.Join(*repo, "zz_"+*pkg+"_"+n)] = b
+		}
+		patterns = []string{"."}
+	} else if err := addDir(*pkg); err != nil {
 		fail(err)
 	}
-	patterns := []string{"./zzverif/" + *pkg}
 	if *extra != "" {
 		for _, e := range strings.Split(*extra, ",") {
 			if err := addDir(e); err != nil {
@@ -124,6 +142,9 @@ func main() {
 	res.BuildS = P.BuildTime.Seconds()
 
 	pkgPath := "github.com/attestantio/dirk/zzverif/" + *pkg
+	if *asMain {
+		pkgPath = "github.com/attestantio/dirk"
+	}
 	var names []string
 	if *funcs != "" {
 		names = strings.Split(*funcs, ",")
